@@ -62,7 +62,17 @@ Additions of the loop ties of C03 / C20 (marked `[loop ties C03]` / `[loop ties 
                `T['col'] = [E for row in T.itertuples(index=False)]` read per row as `T['col'] = E` (cells are `row.<column>`);
                [loop ties C09] `T = T.assign(c1=v1, ..)` with constant / plain-name values read as `T['c1'] = v1; ..`; a load
                `T.loc[mask, 'col']` is `T['col'][mask]`;
-               an `if` of assignments none of which is read afterwards is refused (it used to end in an IndexError)"""
+               an `if` of assignments none of which is read afterwards is refused (it used to end in an IndexError)
+
+Additions of the loop ties of C19 / C17, second wave (marked `[loop ties e2]`; additive, fail-closed):
+  signature  : spec key `allow_kwarg=True` accepts a `**kwargs` parameter that is never read in the translation (only inside
+               an opaque keyed input such as `f(a, **kwargs)`)
+  types      : AQ (a 1-d float numpy ARRAY as a value): `np.array([e1, .., en])`, `k * x` / `x * k` elementwise, `list(x)` -> LQ
+  statements : `if c: pass` (no else) is dropped like an `if` of log lines; spec key `items=<X>`: `X = [(E1, .., En) for a1, .., an
+               in X]` read for one item as `a1, .., an = E1, .., En`; spec key `dict_prelude=<prefix>` (loop specs): one top-level
+               `name = {...}` dict display before the loop is translated in front of the iteration (a constant table)
+  expressions: spec key `rows=[X, ..]`: `np.fromiter(map(F, X), np.float64[, n])` read for one row as F(this row's entry of X)
+  (already present before this wave and used by it: chained comparisons `a < b < c`, `e ** k` for k = 2..8, log lines dropped)"""
 import ast, os, sys, glob, importlib.util
 from fractions import Fraction
 
@@ -105,6 +115,8 @@ COQTY = _CoqTypes({'Z': 'Z', 'Q': 'Q', 'B': 'bool', 'S': 'string', 'OQ': 'option
          'LZ': 'list Z',         # [loop ties C06] LZ: a 1-d integer array / list of ints, as a value
          'LQ': 'list Q',         # [loop ties C15/C05] LQ: a 1-d float array / Series / list of numbers, as a value (opaque: only
                                  # passed on to function-typed parameters, see fn_type)
+         'AQ': 'list Q',         # [loop ties e2] AQ: a 1-d float NUMPY ARRAY as a value (never a Python list: `k * x` is elementwise,
+                                 # see expr()); it arises from `np.array([e1, .., en])` and becomes LQ through `list(x)`
          'OB': 'option bool',    # [loop ties C15/C05] OB: an optional boolean (None / True / False, e.g. a sex call that may be
                                  # missing): `is None`, truthiness (None is false), == / !=, `x = None`, return None, and the
                                  # two narrowing statements of block() (`if x is None: return ..` / `if x is None: x = d`)
@@ -325,6 +337,10 @@ class FnTranslator:
                 if a[1] == 'B' and b[1] == 'B':
                     return ('(%s %s %s)' % ('andb' if isinstance(n.op, ast.BitAnd) else 'orb', a[0], b[0]), 'B')
                 raise Refuse('& / | on non-booleans')
+            if isinstance(n.op, ast.Mult) and {a[1], b[1]} in ({'AQ', 'Z'}, {'AQ', 'Q'}):
+                # [loop ties e2] scalar * numpy array (either order): elementwise, the array of the products
+                k, arr = (a, b) if b[1] == 'AQ' else (b, a)
+                return ('(map (fun x_ => Qmult %s x_) %s)' % (self.toQ(k), arr[0]), 'AQ')
             if isinstance(n.op, (ast.Add, ast.Sub, ast.Mult)):
                 def arith(vs):
                     x, y, ty = self.num2(vs[0], vs[1])
@@ -628,6 +644,31 @@ class FnTranslator:
                 and not n.keywords and len(n.args) == 1 and isinstance(n.args[0], ast.ListComp):
             # [loop ties C05] np.array([... per column ...]): the vector of the per-column entries, read as this column's entry
             return self.expr(n.args[0], env)
+        if fkey in ('np.array', 'numpy.array') and not n.keywords and len(n.args) == 1 and isinstance(n.args[0], ast.List) \
+                and n.args[0].elts and not getattr(self, 'columns', None):
+            # [loop ties e2] np.array([e1, .., en]) of numbers: the float array of these values (type AQ)
+            items = [self.expr(e, env) for e in n.args[0].elts]
+            if not all(i[1] in ('Q', 'Z') for i in items) or all(i[1] == 'Z' for i in items):
+                raise Refuse('%s: np.array display of types %s (numbers, at least one float)' % (self.rel, [i[1] for i in items]))
+            return ('[%s]' % '; '.join(self.toQ(i) for i in items), 'AQ')
+        if getattr(self, 'rows', None) and fkey in ('np.fromiter', 'numpy.fromiter') and not n.keywords and len(n.args) in (2, 3) \
+                and isinstance(n.args[0], ast.Call) and isinstance(n.args[0].func, ast.Name) and n.args[0].func.id == 'map':
+            # [loop ties e2] spec key `rows=[X, ..]`: the named parameters are lists with ONE ENTRY PER ROW of the table being
+            # filled, read as THIS row's entry.  np.fromiter(map(F, X), np.float64, n): entry j of the result is F(X[j]) as a
+            # float, so this row's entry is F applied to this row's entry of X (F a function-typed value of one positional
+            # slot and a numeric result; a wrong count n raises in numpy: an error path)
+            m = n.args[0]
+            if m.keywords or len(m.args) != 2 or not (isinstance(m.args[1], ast.Name) and m.args[1].id in self.rows) \
+                    or ast.unparse(n.args[1]) not in ('np.float64', 'numpy.float64', 'float'):
+                raise Refuse('%s: np.fromiter other than (map(F, X), np.float64[, n]) with X a declared per-row list' % self.rel)
+            fn = self.expr(m.args[0], env)
+            if not fn[1].startswith('F:'):
+                raise Refuse('%s: map(%s, ..): not a function-typed value' % (self.rel, ast.unparse(m.args[0])))
+            slots, rty = fn_type(fn[1])
+            if len(slots) != 1 or slots[0][0] is not None or rty not in ('Q', 'OQ'):
+                raise Refuse('%s: map(%s, ..) with a function of type %s' % (self.rel, ast.unparse(m.args[0]), fn[1]))
+            x = self.coerce(self.expr(m.args[1], env), slots[0][1])
+            return ('(%s %s)' % (fn[0], x), rty)
         if isinstance(f, ast.Name) and f.id == 'row_mask__' and len(n.args) == 1 and not n.keywords:
             # [loop ties C20] the subscript of `T = T[mask]` under `row_keep`: it must be a boolean mask (see desugar)
             m = self.expr(n.args[0], env)
@@ -824,6 +865,8 @@ class FnTranslator:
                 # [loop ties C16-C18] abs of an optional number: NaN stays NaN (as the .abs() method below)
                 return self.lift(args, lambda vs: ('(Qabs %s)' % self.toQ(vs[0]), 'Q') if vs[0][1] != 'Z'
                                  else ('(Z.abs %s)' % vs[0][0], 'Z'))
+            if f.id == 'list' and len(args) == 1 and args[0][1] == 'AQ':
+                return (args[0][0], 'LQ')                # [loop ties e2] list(array): the Python list of the same numbers
             if f.id == 'len' and len(args) == 1 and args[0][1] in ('LZ', 'LS'):
                 return ('(Z.of_nat (length %s))' % args[0][0], 'Z')          # [loop ties C06] len of a list value
             if f.id == 'len' and len(args) == 1 and args[0][1] == 'S':
@@ -988,6 +1031,10 @@ class FnTranslator:
                     # [loop ties C05] the then-side held only log lines: `if c: <nothing> else: B` is `if not c: B` (an if
                     # without a body is not a Python statement; tools/fn_selftest.py prints and re-parses the region)
                     s = ast.If(test=ast.UnaryOp(op=ast.Not(), operand=s.test), body=s.orelse, orelse=[])
+                if s.body and all(isinstance(x, ast.Pass) for x in s.body) and not s.orelse:
+                    # [loop ties e2] `if c: pass` (nothing else, no else): like an `if` of log lines only -- dropped when its
+                    # test has no effect (checked just below)
+                    s = ast.If(test=s.test, body=[], orelse=[])
                 if not s.body and not s.orelse:
                     # [loop ties C15] an `if` that held nothing but log lines (`if verbose: logging.info(...)`): it has no
                     # effect when its test has none -- names, attributes, constants, not / and / or, comparisons,
@@ -1046,6 +1093,31 @@ class FnTranslator:
                     raise Refuse('%s: bare yield' % self.rel)
                 call = ast.Call(func=ast.Name(id='yield_append__', ctx=ast.Load()), args=[s.value.value], keywords=[])
                 out.append(ast.Assign(targets=[ast.Name(id='yield__', ctx=ast.Store())], value=call))
+                continue
+            it_name = getattr(self, 'items', None)
+            if it_name and isinstance(s, ast.Assign) and len(s.targets) == 1 and isinstance(s.targets[0], ast.Name) \
+                    and s.targets[0].id == it_name and isinstance(s.value, ast.ListComp) and len(s.value.generators) == 1:
+                # [loop ties e2] spec key `items=<X>`: `X = [(E1, .., En) for a1, .., an in X]` -- the list X of n-tuples is
+                # rebuilt item by item -- read for ONE ITEM: its components (a1, .., an) become (E1, .., En), all Ei evaluated
+                # first: the simultaneous assignment `a1, .., an = E1, .., En` (the spec names a1..an in `returns`).  The
+                # comprehension's variables are local to it in Python: refused when the function uses one of the names
+                # anywhere outside this comprehension, or when Ei mentions X itself.
+                g = s.value.generators[0]
+                tg, el = g.target, s.value.elt
+                inside = {id(x) for x in ast.walk(s.value)}
+                if g.ifs or g.is_async or not (isinstance(g.iter, ast.Name) and g.iter.id == it_name) \
+                        or not (isinstance(tg, ast.Tuple) and isinstance(el, ast.Tuple) and len(tg.elts) == len(el.elts)
+                                and all(isinstance(t, ast.Name) for t in tg.elts) and len({t.id for t in tg.elts}) == len(tg.elts)) \
+                        or any(isinstance(x, ast.Name) and x.id == it_name for x in ast.walk(el)) \
+                        or any(isinstance(x, (ast.Name, ast.arg)) and getattr(x, 'id', getattr(x, 'arg', None)) in {t.id for t in tg.elts}
+                               and id(x) not in inside for x in ast.walk(getattr(self, 'cur_fnode', None) or s)):
+                    raise Refuse('%s: items=%s: only `%s = [(E1, .., En) for a1, .., an in %s]` with names local to the comprehension'
+                                 % (self.rel, it_name, it_name, it_name))
+                s2 = ast.Assign(targets=[ast.Tuple(elts=[ast.Name(id=t.id, ctx=ast.Store()) for t in tg.elts], ctx=ast.Store())],
+                                value=ast.Tuple(elts=list(el.elts), ctx=ast.Load()))
+                s2.lineno, s2.col_offset = 0, 0
+                ast.fix_missing_locations(s2)
+                out += self.desugar([s2])
                 continue
             if isinstance(s, ast.Assign) and len(s.targets) == 1 and isinstance(s.targets[0], ast.Tuple) \
                     and isinstance(s.value, ast.IfExp) and isinstance(s.value.body, ast.Tuple) and isinstance(s.value.orelse, ast.Tuple) \
@@ -1808,7 +1880,11 @@ class FnTranslator:
     def function(self, fnode, sp):
         self.cur_fnode = fnode                     # [loop ties C15] for dict_local's whole-function check
         args = fnode.args
-        if args.vararg or args.kwarg or args.kwonlyargs or args.posonlyargs:
+        # [loop ties e2] spec key `allow_kwarg=True`: a `**kwargs` parameter is accepted in the SIGNATURE only (the decorators'
+        # `wrapper(a, **kwargs)`): the name is never bound in the translation, so any read of it is refused (unknown name /
+        # keyword arguments in a call) unless it sits inside a source expression the spec declares as an opaque typed input
+        # (e.g. `f(a, **kwargs)`), which is all a pass-through wrapper does with it
+        if args.vararg or (args.kwarg and not sp.get('allow_kwarg')) or args.kwonlyargs or args.posonlyargs:
             raise Refuse('%s.%s: unsupported parameter kinds' % (self.rel, sp['name']))
         names = [a.arg for a in args.args]
         want = sp.get('py_params')
@@ -1859,6 +1935,8 @@ class FnTranslator:
         self.row_filter = sp.get('row_filter')       # [loop ties C15] see block(), Return
         self.row_keep = sp.get('row_keep')           # [loop ties C20] see desugar(): `T = T[mask]` per row
         self.columns = sp.get('columns')             # [loop ties C05] see expr(), ListComp / np.apply_along_axis
+        self.rows = sp.get('rows')                   # [loop ties e2] see call(): np.fromiter(map(F, X), ..) read per row
+        self.items = sp.get('items')                 # [loop ties e2] see desugar(): X = [(E1, ..) for a1, .. in X] read per item
         for nm in self.attr_store_ok:
             for x in ast.walk(fnode):
                 if isinstance(x, ast.Assign) and isinstance(x.value, ast.Name) and (
@@ -1918,6 +1996,25 @@ class FnTranslator:
                     raise Refuse('%s.%s: opaque range %r .. %r not found' % (self.rel, sp['name'], oq['first'], oq['last']))
                 body = nb
             stmts = self.desugar(body)
+            if sp.get('dict_prelude'):
+                # [loop ties e2] spec key `dict_prelude=<prefix>`: ONE statement `name = {...}` (a dict display) that is a
+                # top-level statement of the function placed before the loop -- so it runs exactly once before the loop is
+                # reached -- is translated in front of the iteration, where block() reads it as a constant table (dict_local
+                # checks in the whole function that the name is never stored into, re-bound or handed on).  Its values are
+                # evaluated where the statement stands: refused when they read (outside a lambda body, which is only keyed as an
+                # opaque input) a name the function assigns anywhere.
+                cand = [x for x in fnode.body if isinstance(x, ast.Assign) and len(x.targets) == 1
+                        and isinstance(x.targets[0], ast.Name) and isinstance(x.value, ast.Dict)
+                        and ast.unparse(x).startswith(sp['dict_prelude'])]
+                if len(cand) != 1 or cand[0].lineno >= node.lineno:
+                    raise Refuse('%s.%s: dict_prelude %r is not one top-level dict assignment before the loop'
+                                 % (self.rel, sp['name'], sp['dict_prelude']))
+                stored = {x.id for x in ast.walk(fnode) if isinstance(x, ast.Name) and isinstance(x.ctx, ast.Store)}
+                lam = {id(y) for x in ast.walk(cand[0]) if isinstance(x, ast.Lambda) for y in ast.walk(x)}
+                for x in ast.walk(cand[0].value):
+                    if isinstance(x, ast.Name) and isinstance(x.ctx, ast.Load) and id(x) not in lam and x.id in stored:
+                        raise Refuse('%s.%s: the dict display reads %s, which the function assigns' % (self.rel, sp['name'], x.id))
+                stmts = [cand[0]] + stmts
             tail = [ast.parse(c, mode='eval').body for c, _ in self.loop_carried]
             end = ast.Continue()
             end.lineno, end.col_offset = 0, 0
